@@ -71,6 +71,10 @@ mod raw;
 mod external_trait_impls;
 mod map;
 mod set;
+#[cfg(griddle_verif)]
+mod verif;
+#[cfg(griddle_verif)]
+pub use crate::verif::VerifState;
 
 pub mod hash_map {
     //! A hash map implemented with quadratic probing and SIMD lookup.
